@@ -23,11 +23,31 @@ func c15(r *core.Run) {
 	r.Explanation = "Static rules over storage.MsgInitProvider / MsgShutdownProvider and a closed-world census: the locked coins and the recorded Collateral.Amount come from the single source Param(CollateralPrice), paid by and keyed by the signer, only when no provider record exists; the refund is exactly the loaded record's amount (never the current price), paid to the signer, and every committing path after it deletes the collateral record and the provider; no other handler or block path writes collateral records or names the collateral module account in a bank call; the account is registered in the app's module-account permissions; bank errors propagate."
 	r.Assumptions = []string{T1, T3, T4, T6}
 	r.NotDecided = []string{"the numeric invariant escrow balance = Σ collaterals (follows from R1–R4 given T3)"}
+	r.Rule("C15/R6", "collateral records are enumerated exhaustively wherever they are listed (genesis export): no pagination helper, no iterator loop left early — a record dropped from the export leaves its collateral in the escrow with nobody entitled to it after a restart from genesis")
 	r.Rule("C15/R1", "lock = record: in InitProvider the coin amount and Collateral.Amount depend only on Param(CollateralPrice); payer and keys ⊵ signer; all effects behind Found(provider)=false")
 	r.Rule("C15/R2", "refund = record: in ShutdownProvider amount ⊵ loaded Collateral.Amount only (⋫ Param(CollateralPrice)); recipient ⊵ signer; every committing path after the send deletes the collateral record and the provider; all effects behind Found(provider)=true")
 	r.Rule("C15/R3", "closed world: only these two handlers write Collateral records or name the collateral module account in bank calls; the account is in maccPerms")
 	r.Rule("C15/R4", "bank errors propagate")
 	r.Rule("C15/R5", "key agreement: every Get/Set/Delete of provider and collateral records in the two handlers uses the same key term")
+	// R6 every function that iterates the collateral records does so exhaustively
+	var collFns []*ssa.Function
+	for _, fn := range moduleFuncs(p, "storage") {
+		isQuery := false
+		for _, prm := range fn.Params {
+			if strings.Contains(prm.Type().String(), "types.Query") {
+				isQuery = true // a paginated gRPC query is meant to return one page
+			}
+		}
+		if isQuery {
+			continue
+		}
+		for _, o := range p.StoreOps(fn) {
+			if (o.Kind == "Iterate") && o.Module+"/"+o.Prefix == stCollateral {
+				collFns = append(collFns, fn)
+			}
+		}
+	}
+	r.Floor("C15/R6", exhaustiveEnumeration(r, "C15/R6", "storage-collateral", collFns)+len(collFns), 1, "collateral enumerations")
 	hs, err := p.Handlers()
 	if err != nil {
 		r.Undecided("C15/R1", "handlers", "", err.Error())
